@@ -888,9 +888,19 @@ class LangServer:
         pre_lines, curr_line, _ = file_obj.get_code_line(
             sig_line, forward=False, strip_comment=True
         )
-        line_prefix = get_line_prefix(pre_lines, curr_line, sig_char)
+        line_prefix = get_line_prefix(pre_lines, curr_line, sig_char, qs=False)
         if line_prefix is None:
             return None
+        # The cursor inside a character literal: the literal is (part of) the
+        # current argument, close it
+        open_quote = ""
+        for char in line_prefix:
+            if open_quote:
+                if char == open_quote:
+                    open_quote = ""
+            elif char in ("'", '"'):
+                open_quote = char
+        line_prefix += open_quote
         # Test if scope declaration or end statement
         if FRegex.SCOPE_DEF.match(curr_line) or FRegex.END.match(curr_line):
             return None
